@@ -291,6 +291,18 @@ theorem exact_query_ok (atoms : List (P3 ℚ)) (maxd eps : ℚ) (heps : 0 ≤ ep
     have h3 : 1 ≤ (1 + eps) * (1 + eps) := by nlinarith
     nlinarith
 
+/-- for an ensemble `prune` works on the atoms of ALL conformers (`np.vstack(ens.coords)`): a grid point within the
+cut-off of an atom of any conformer is kept — conformer weights play no part in pruning. -/
+theorem prune_keeps_point_near_any_conformer (ens : List (List (P3 ℚ))) (maxd : ℚ) (grid : List (P3 ℚ))
+    (c : List (P3 ℚ)) (hc : c ∈ ens) (a : P3 ℚ) (ha : a ∈ c) (n : Nat) (g : P3 ℚ) (hg : grid[n]? = some g)
+    (hd : dist2 a g ≤ maxd * maxd) : n ∈ pruneExact ens.flatten maxd grid := by
+  unfold pruneExact pruneWith
+  rw [whereFrom_mem]
+  refine ⟨Nat.zero_le _, g, by simpa using hg, ?_⟩
+  unfold withinCut
+  rw [List.any_eq_true]
+  exact ⟨a, List.mem_flatten.mpr ⟨c, hc, ha⟩, by simpa using hd⟩
+
 example : pruneExact [⟨0, 0, 0⟩, ⟨3, 0, 0⟩] 1 [⟨1, 0, 0⟩, ⟨3 / 2, 0, 0⟩, ⟨5 / 2, 1 / 2, 0⟩, ⟨0, 2, 0⟩, ⟨3, 0, 1⟩] = [0, 2, 4] := by
   decide +kernel
 
